@@ -318,7 +318,24 @@ func (e *Engine) evalIdent(env *Env, name string) (TV, error) {
 	}
 	if env.fr != nil {
 		if g, ok := env.fr.ghosts[name]; ok {
-			return TV{g, e.ghostDeclType(env, name)}, nil
+			if ty := e.ghostDeclType(env, name); ty != nil {
+				return TV{g, ty}, nil
+			}
+			// a ghost declared with a slice / pointer / struct type keeps that type (indexing, field access);
+			// scalar and spec-sort ghosts stay untyped as before
+			if env.fr.contract != nil {
+				for _, gd := range env.fr.contract.Ghosts {
+					if gd.Name == name {
+						if ty, _, err := e.resolveType(env, gd.Type); err == nil && ty != nil {
+							switch ty.Underlying().(type) {
+							case *types.Slice, *types.Pointer, *types.Struct:
+								return TV{g, ty}, nil
+							}
+						}
+					}
+				}
+			}
+			return TV{g, nil}, nil
 		}
 		// parameters
 		if env.entryParams || env.inOld {
@@ -729,6 +746,12 @@ func (e *Engine) specEqual(env *Env, a, b TV) (Term, error) {
 	if aNil && !bNil {
 		a, b = b, a
 		aNil, bNil = bNil, aNil
+	}
+	if bNil {
+		// an interior pointer (&x.f, &s[i], &local) is never nil (addons: findNextSegment returns &segments[i])
+		if p, ok := a.V.(*Ptr); ok && (p.Kind == pkCell || p.Kind == pkField || p.Kind == pkElem) {
+			return TFalse, nil
+		}
 	}
 	at, err := s.toTerm(a.V)
 	if err != nil {
@@ -1175,6 +1198,9 @@ func (e *Engine) evalCall(env *Env, n *ECall) (TV, error) {
 		return tv, err
 	}
 	if tv, handled, err := e.ghostSpec(env, n.Fun, n.Args); handled {
+		return tv, err
+	}
+	if tv, handled, err := e.addonSpec(env, n.Fun, n.Args); handled {
 		return tv, err
 	}
 	if n.Fun == "as" && len(n.Args) == 2 {
